@@ -35,6 +35,10 @@ func (o rlOp) j() J {
 
 var mgrPool = map[int]types.TemplateManager{}
 
+// content types a handler may have set before the renderer is asked to write its own
+var c18Presets = []string{"application/x-test", "text/html", "TEXT/HTML", " text/html ", "text/html; charset=gbk", "text/plain; charset=utf-8", "", "text/html;charset=UTF-8"}
+var c18PresetIdx = 0
+
 // c18PartialOnFail: a failing build returns a non-nil manager together with its error
 var c18PartialOnFail = false
 
@@ -110,14 +114,24 @@ func runReloadImpl(hot bool, first *int, ops []rlOp) (initErr bool, outs []any) 
 				}
 			case "request":
 				w := httptest.NewRecorder()
+				preset := ""
 				if op.Hdr {
-					w.Header().Set("Content-Type", "application/x-test")
+					// whatever the handler has set stays: another type, the same type without or with another charset,
+					// odd spellings, even an explicitly empty value
+					preset = c18Presets[c18PresetIdx%len(c18Presets)]
+					c18PresetIdx++
+					w.Header()["Content-Type"] = []string{preset}
 				}
 				inst := r.Instance(context.Background(), fmt.Sprintf("n%d", op.Name), nil)
 				inst.WriteContentType(w)
 				err := inst.Render(w)
-				ct := w.Header().Get("Content-Type") == "text/html; charset=utf-8"
-				outs = append(outs, J{"request": res(w.Body.String(), err, op.Name), "ct": ct})
+				hv := w.Header()["Content-Type"]
+				ct := len(hv) == 1 && hv[0] == "text/html; charset=utf-8"
+				if op.Hdr && (len(hv) != 1 || hv[0] != preset) {
+					outs = append(outs, J{"request": res(w.Body.String(), err, op.Name), "ct": J{"preset": preset, "after": hv}})
+				} else {
+					outs = append(outs, J{"request": res(w.Body.String(), err, op.Name), "ct": ct})
+				}
 			default:
 				t, err := r.GetTemplate(context.Background(), fmt.Sprintf("n%d", op.Name))
 				body := ""
